@@ -168,7 +168,7 @@ def split_log(log):
     return pre, res
 
 
-def run(fx, rep, tier):
+def run(fx, rep, tier, shares=True):
     rep.rule("C19-R1", "path summary of any::main with 0..2 symbolic query results: an Err result is rendered by "
                        "term::emit and the loop goes on to the next result; the only early exits are I/O failures of "
                        "emit / write (and start-up failures before the loop); no exit/abort/panic")
@@ -301,6 +301,8 @@ def run(fx, rep, tier):
         rep.ob("C19-R4", "description-order" + tag, bool(order_ok),
                "descriptions are written in recorded order with their own constant's text" if order_ok else
                "descriptions are not written as (phrase_i, constant_i.description) in recorded order", body.site())
+    if not shares:
+        return
     # what the binary prints for a fact comes out of the database session it opened (on disk), and its decimal text out of
     # the library's formatter: both are part of "prints what the library computed" as an independent observer sees it
     facts = fx["dev"]
